@@ -29,7 +29,7 @@ impl Eq for HK {}
 impl Hash for HK { fn hash<H: Hasher>(&self, h: &mut H) { callback(); h.write_u8(self.0) } }
 impl Clone for HK { fn clone(&self) -> HK { callback(); HK(self.0) } }
 pub struct HV(pub u8);
-impl HeapSize for HV { fn heap_size(&self) -> usize { callback(); 0 } }
+impl HeapSize for HV { fn heap_size(&self) -> usize { callback(); self.0 as usize } }
 impl Clone for HV { fn clone(&self) -> HV { callback(); HV(self.0) } }
 
 /// the panic-safe invariant; uses only `owns` (no Hash/Eq call-backs)
@@ -157,5 +157,31 @@ fn q_cb_insert_untracked() {
     let r = c.insert_into_table_with_hash(h, e);
     let _ = disarm();
     if let Ok(p) = r { c.current_size += sz; c.set_head(p); }
+    psafe(&c);
+}
+
+// ---- mutate: the closure and both size estimates are call-back points; at each of them nothing has been
+//      modified yet (psafe, bound, no entry lost) --------------------------------------------------------------
+#[kani::proof]
+#[kani::unwind(6)]
+fn q_cb_mutate() {
+    let mut c = prebuilt_hk(2, 4);
+    let k: u8 = kani::any();
+    kani::assume(k < 3);
+    let newv: u8 = kani::any();
+    kani::assume(newv < 4);
+    arm(&c);
+    let cp: *const LruCache<HK, HV, BH> = &c;
+    let r = c.mutate(&HK(k), |v| {
+        unsafe {
+            psafe(&*cp);
+            assert!((*cp).current_size <= (*cp).max_size);
+            assert!((*cp).table.len() == 2, "an entry was lost before the closure ran");
+        }
+        v.0 = newv;
+    });
+    let calls = disarm();
+    assert!(calls >= 1);
+    assert!(r.is_ok());
     psafe(&c);
 }
